@@ -229,6 +229,7 @@ def scenario(t, skip_premature: bool):
     n_ops = 2 + t.choose(7, "n puts")
     plan = sorted(t.choose(horizon, "put after call") for _ in range(n_ops))
     counter = {"n": 0, "dst": 0}
+    pool = []  # (request object, (mode, closure) as the user gave them)
 
     def do_put(w2):
         hk = ["src", "src2"][t.choose(2, "put handler")]
@@ -254,8 +255,23 @@ def scenario(t, skip_premature: bool):
                    "ghost": UnsignedByteField(3, g_idw if dest_idw is None else dest_idw),
                    "unknown": UnsignedByteField(9, cfg.idw_a)}[dest]
         src_path = MISSING if file == "missing" else f"src/{file}.bin"
-        req = PutRequest(dest_id, Path(src_path), Path(f"dst/o{counter['dst']}.bin"), mode, closure)
+        # a third of the requests re-use a request OBJECT the user submitted before (kept with the values the user
+        # gave it: mode / closure possibly "not given"), re-targeted to this destination and file
+        # (only objects no busy handler is still working on: changing a request under a running transaction is the
+        # user's own fault)
+        free = [e for e in pool if not any(hh.state.name != "IDLE" and hh.get_put_request() is e[0] for k2, hh in a.handlers.items() if k2.startswith("src"))]
+        reuse = t.choose(3, "re-use request object") == 2 and bool(free)
+        if reuse:
+            req, given = free[t.choose(len(free), "which request object")]
+            req.destination_id = dest_id
+            req.source_file = Path(src_path)
+            req.dest_file = Path(f"dst/o{counter['dst']}.bin")
+            mode, closure = given
+        else:
+            req = PutRequest(dest_id, Path(src_path), Path(f"dst/o{counter['dst']}.bin"), mode, closure)
         spec = {"dest": dest, "file": file, "mode": mode, "closure": closure, "size": sizes.get(file, 0), "dest_idw": dest_idw}
+        if not reuse:
+            pool.append((req, (mode, closure)))  # also in the twin run that does not issue the premature requests
         if premature and skip_premature:
             return
         rec = w2.call(a, hk, "put", arg=req)
